@@ -37,7 +37,7 @@ func genLoss(rng *simkit.Rand, tier string, idx int) *simkit.Case {
 
 func execLoss(run *simkit.Run) {
 	c := run.Case
-	w := &cluster3{world: newWorld(run, netCfg(c)), prop: "C18"}
+	w := &cluster3{world: newWorld(run, netCfg(c)), prop: "C18", slowVia: map[string]bool{}}
 	defer w.teardown()
 	interval := time.Duration(c.Int("interval_ms")) * time.Millisecond
 	grace := time.Duration(c.Int("grace_ms")) * time.Millisecond
@@ -73,11 +73,23 @@ func execLoss(run *simkit.Run) {
 			for k := 0; k < op.C; k++ {
 				live := w.liveNodes()
 				entry := live[(op.A+k)%len(live)]
+				if k%2 == 1 && i+1 < len(c.Script) && c.Script[i+1].K == "lose" {
+					// through the node that is about to go
+					entry = live[c.Script[i+1].A%len(live)]
+				}
 				rq := w.buildReq(entry.idx, eps[(op.B+k)%len(eps)], 0)
-				if k%2 == 0 {
+				switch {
+				case k%2 == 0:
 					w.mu.Lock()
 					w.specs[rq.ID] = &respSpec{Status: 200, Body: []byte("slow"), Delay: time.Duration(100+200*k) * time.Millisecond}
 					w.mu.Unlock()
+				case k%4 == 1:
+					// an answer that takes longer than the whole grace period
+					w.mu.Lock()
+					w.specs[rq.ID] = &respSpec{Status: 200, Body: []byte("very slow"), Delay: grace + time.Duration(1+k)*time.Second}
+					w.mu.Unlock()
+					run.Probe("c18.request_slower_than_grace")
+					w.slowVia[entry.id] = true
 				}
 				w.requests++
 				w.wg.Add(1)
@@ -132,7 +144,24 @@ func (w *cluster3) lose(n *node, mode int, grace time.Duration) {
 			n.srv.Shutdown()
 			close(done)
 		}()
+		// mid-shutdown: the upstream connections are closed first (so that no
+		// other node keeps routing here while requests drain); one second in,
+		// a node that is still shutting down advertises nothing any more
+		observed := make(chan struct{})
+		go func() {
+			defer close(observed)
+			select {
+			case <-done:
+				return
+			case <-time.After(time.Second):
+			}
+			if own := n.srv.ClusterState().LocalNode().Endpoints; len(own) != 0 {
+				run.Fail("C18.withdraw", "still-advertising-mid-shutdown", "%s has been shutting down for 1s (requests draining) and still advertises [%s]", n.id, epString(own))
+			}
+			run.Probe("c18.mid_shutdown_observed")
+		}()
 		<-done
+		<-observed
 		n.stopped = true
 		took := time.Since(t0)
 		run.Logf("%s shutdown returned after %v", n.id, took)
@@ -151,7 +180,12 @@ func (w *cluster3) lose(n *node, mode int, grace time.Duration) {
 			}
 		}
 		if notified == 0 && w.nw.Config().PktDrop == 0 {
-			run.Fail("C18.notified", "nobody-notified", "%s shut down gracefully but no serving node lists it as left", n.id)
+			sig, extra := "nobody-notified", ""
+			if w.slowVia[n.id] && took >= grace-100*time.Millisecond {
+				// finding F5: draining used up the grace period, Leave got an expired context
+				sig, extra = "nobody-notified-after-drain-used-the-grace-period", fmt.Sprintf(" (a request slower than the grace period was in flight through its proxy; shutdown took %v)", took)
+			}
+			run.Fail("C18.notified", sig, "%s shut down gracefully but no serving node lists it as left%s", n.id, extra)
 		}
 		run.Probe("c18.graceful")
 	default:
